@@ -29,6 +29,14 @@ for d in sorted(glob.glob(HERE + "/seeded/*/")):
             "how_checks_were_run": "tools/seed_matrix.py: git apply patch.diff on a copy of the repository (PYP0F_REPO), ./check <prop> --tier quick, git checkout -- ."}
     json.dump(meta, open(d + "meta.json", "w"), indent=1)
     rows.append((i, c["property"], c["confirmed"], caught_by, title[:90]))
-print("| change | breaks | confirmed | caught by (quick tier) | what it is |\n|---|---|---|---|---|")
+table = ["| change | breaks | confirmed | caught by (quick tier) | what it is |", "|---|---|---|---|---|"]
 for i, p, ok, cb, t in rows:
-    print("| %s | %s | %s | %s | %s |" % (i, p, "yes" if ok else "NO", ", ".join(cb) or "-", t.replace("|", "/")))
+    table.append("| %s | %s | %s | %s | %s |" % (i, p, "yes" if ok else "NO", ", ".join(cb) or "-", t.replace("|", "/")))
+print("\n".join(table))
+# splice the table into DESIGN.md between the markers
+dp = HERE + "/DESIGN.md"
+d = open(dp).read()
+a, b = "<!-- SEED-TABLE-BEGIN -->", "<!-- SEED-TABLE-END -->"
+if a in d and b in d:
+    d = d[:d.index(a) + len(a)] + "\n" + "\n".join(table) + "\n" + d[d.index(b):]
+    open(dp, "w").write(d)
